@@ -267,6 +267,11 @@ def layout_layer(seed: int, n_cases: int) -> Dict[str, Any]:
     return generic_layer("layout", "layout", seed, n_cases, 32452843)
 
 
+def queuerun_layer(seed: int, n_cases: int) -> Dict[str, Any]:
+    """whole steps under the built-in generators on charging queues (C18)"""
+    return generic_layer("queuerun", "queuerun", seed, n_cases, 15485867)
+
+
 def shift_layer(seed: int, n_cases: int) -> Dict[str, Any]:
     """shift tables and human drivers through the real driver phase and dispatcher (C20)"""
     return generic_layer("shift", "shift", seed, n_cases, 86028121)
